@@ -1,6 +1,7 @@
 (* C20 — Linear layer computes the clipped affine function.  Property
    theorems only; proofs live in Proofs/LinearEval.v. *)
 From TFL Require Import Model.LinearEval Proofs.LinearEval.
+From TFL Require Import Model.LinearLayer Proofs.PartialOrder Proofs.LinearProject Proofs.LinearComposed.
 Open Scope Q_scope.
 
 (* Output of unit u = bias_u + sum_i K[i,u] * clip_i(x_i). *)
@@ -43,3 +44,169 @@ Theorem C20_weighted_average : forall k bs x lo hi,
   lo <= lin_unit k 0 bs x /\ lin_unit k 0 bs x <= hi.
 Proof. exact lin_weighted_average. Qed.
 Print Assumptions C20_weighted_average.
+
+(* ======================================================================
+   The second sentence of the property, closed over the constraint (C06):
+   r is what the layer's kernel constraint linear_lib.project returns for an
+   ARBITRARY kernel column w under an arbitrary valid configuration c
+   (lin_valid: what verify_hyperparameters checks + acyclic dominance graphs;
+   the projection uses the code's own topological sort), and the layer clips by
+   the bounds of the same configuration (layer_bounds c n).  No hypothesis on
+   the weights remains.  Proofs in Proofs/LinearComposed.v.
+   ====================================================================== *)
+
+(* (1) monotone: dir_le c x y = y is >= x in every increasing input, <= x in
+   every decreasing input, equal in the unconstrained ones *)
+Theorem C20_projected_monotone : forall rt c n w r b x y,
+  lin_valid c n -> length w = n -> lin_project_col rt c w = Some r ->
+  length x = n -> length y = n -> dir_le c x y ->
+  lin_unit r b (layer_bounds c n) x <= lin_unit r b (layer_bounds c n) y.
+Proof. exact projected_monotone. Qed.
+Print Assumptions C20_projected_monotone.
+
+(* every pair of values v <= v' of one constrained input, all other inputs fixed *)
+Theorem C20_projected_monotone_coordinate : forall rt c n w r b x i v v',
+  lin_valid c n -> length w = n -> lin_project_col rt c w = Some r -> length x = n -> (i < n)%nat -> v <= v' ->
+  (mono c i = 1%Z -> lin_unit r b (layer_bounds c n) (set_nth i v x) <= lin_unit r b (layer_bounds c n) (set_nth i v' x)) /\
+  (mono c i = (-1)%Z -> lin_unit r b (layer_bounds c n) (set_nth i v' x) <= lin_unit r b (layer_bounds c n) (set_nth i v x)).
+Proof. exact projected_monotone_coordinate. Qed.
+Print Assumptions C20_projected_monotone_coordinate.
+
+(* (2) every configured monotonic dominance pair, every step d >= 0, wherever
+   the DOMINANT input is not clipped at x_dom and x_dom + d (unclipped b v :=
+   clip_opt (fst b) (snd b) v == v; a saturated dominant input cannot move the
+   output at all, so that guard is necessary); the weak input may be clipped *)
+Theorem C20_projected_monotonic_dominance_effect : forall rt c n w r b x dom weak d,
+  lin_valid c n -> length w = n -> lin_project_col rt c w = Some r -> length x = n ->
+  In (dom, weak) (lc_mdom c) -> 0 <= d ->
+  unclipped (nth dom (layer_bounds c n) nob) (nth dom x 0) ->
+  unclipped (nth dom (layer_bounds c n) nob) (nth dom x 0 + d) ->
+  lin_unit r b (layer_bounds c n) (set_nth weak (nth weak x 0 + d) x) - lin_unit r b (layer_bounds c n) x <=
+  lin_unit r b (layer_bounds c n) (set_nth dom (nth dom x 0 + d) x) - lin_unit r b (layer_bounds c n) x.
+Proof. exact projected_mdom_effect. Qed.
+Print Assumptions C20_projected_monotonic_dominance_effect.
+
+(* (3) every configured range dominance pair: both inputs have proper ranges in
+   the layer's own bounds, and sweeping the dominant input across its range
+   moves the output at least as much as sweeping the weak input across its
+   range, from every base point x (signed for increasing / decreasing pairs,
+   and in absolute value) *)
+Theorem C20_projected_range_dominance_effect : forall rt c n w r b x dom weak,
+  lin_valid c n -> length w = n -> lin_project_col rt c w = Some r -> length x = n ->
+  In (dom, weak) (lc_rdom c) ->
+  exists ld hd lw hw,
+    nth dom (layer_bounds c n) nob = (Some ld, Some hd) /\ nth weak (layer_bounds c n) nob = (Some lw, Some hw) /\
+    ld < hd /\ lw < hw /\
+    (mono c dom = 1%Z ->
+       lin_unit r b (layer_bounds c n) (set_nth weak hw x) - lin_unit r b (layer_bounds c n) (set_nth weak lw x) <=
+       lin_unit r b (layer_bounds c n) (set_nth dom hd x) - lin_unit r b (layer_bounds c n) (set_nth dom ld x)) /\
+    (mono c dom = (-1)%Z ->
+       lin_unit r b (layer_bounds c n) (set_nth weak lw x) - lin_unit r b (layer_bounds c n) (set_nth weak hw x) <=
+       lin_unit r b (layer_bounds c n) (set_nth dom ld x) - lin_unit r b (layer_bounds c n) (set_nth dom hd x)) /\
+    qabs (lin_unit r b (layer_bounds c n) (set_nth weak hw x) - lin_unit r b (layer_bounds c n) (set_nth weak lw x)) <=
+    qabs (lin_unit r b (layer_bounds c n) (set_nth dom hd x) - lin_unit r b (layer_bounds c n) (set_nth dom ld x)).
+Proof. exact projected_rdom_effect. Qed.
+Print Assumptions C20_projected_range_dominance_effect.
+
+(* (4) normalization order 1, all inputs increasing: the weights are >= 0, sum
+   to one and the output minus the bias lies between any lo/hi that bound the
+   clipped inputs -- PROVIDED the un-normalized projection w3 of the column has
+   L1 norm >= _NORMALIZATION_EPS (1e-8).  The guard is necessary, see
+   C20_projected_weighted_average_zero_refuted. *)
+Theorem C20_projected_weighted_average : forall rt c n w w3 r b x lo hi,
+  lin_valid c n -> length w = n -> lc_norm c = 1%nat -> all_increasing c n ->
+  lin_project_col rt c w = Some r -> lin_project_col rt (with_norm c 0) w = Some w3 ->
+  norm_eps <= qsum (map qabs w3) -> length x = n ->
+  (forall v, In v (clipped (layer_bounds c n) x) -> lo <= v /\ v <= hi) ->
+  (forall q, In q r -> 0 <= q) /\ qsum r == 1 /\
+  lo <= lin_unit r b (layer_bounds c n) x - b /\ lin_unit r b (layer_bounds c n) x - b <= hi.
+Proof. exact projected_weighted_average. Qed.
+Print Assumptions C20_projected_weighted_average.
+
+(* the same with a guard on the RAW weights when no dominance is configured:
+   one raw weight of at least 1e-8 suffices *)
+Theorem C20_projected_weighted_average_plain : forall rt c n w r b x lo hi i,
+  lin_valid c n -> length w = n -> lc_norm c = 1%nat -> all_increasing c n ->
+  lc_mdom c = [] -> lc_rdom c = [] -> (i < n)%nat -> norm_eps <= nth i w 0 ->
+  lin_project_col rt c w = Some r -> length x = n ->
+  (forall v, In v (clipped (layer_bounds c n) x) -> lo <= v /\ v <= hi) ->
+  (forall q, In q r -> 0 <= q) /\ qsum r == 1 /\
+  lo <= lin_unit r b (layer_bounds c n) x - b /\ lin_unit r b (layer_bounds c n) x - b <= hi.
+Proof. exact projected_weighted_average_plain. Qed.
+Print Assumptions C20_projected_weighted_average_plain.
+
+(* below the guard: the constraint returns the numerically-zero column as it is
+   (C06_norm_one_or_zero), the weights sum to s < 1e-8 and the output minus the
+   bias is only between lo * s and hi * s *)
+Theorem C20_projected_weighted_average_degenerate : forall rt c n w w3 r b x lo hi,
+  lin_valid c n -> length w = n -> lc_norm c = 1%nat -> all_increasing c n ->
+  lin_project_col rt c w = Some r -> lin_project_col rt (with_norm c 0) w = Some w3 ->
+  qsum (map qabs w3) < norm_eps -> length x = n ->
+  (forall v, In v (clipped (layer_bounds c n) x) -> lo <= v /\ v <= hi) ->
+  peq r w3 /\ 0 <= qsum r /\ qsum r < norm_eps /\
+  lo * qsum r <= lin_unit r b (layer_bounds c n) x - b /\ lin_unit r b (layer_bounds c n) x - b <= hi * qsum r.
+Proof. exact projected_weighted_average_degenerate. Qed.
+Print Assumptions C20_projected_weighted_average_degenerate.
+
+(* without the guard the weighted-average claim is FALSE (known finding D32):
+   monotonicities (1, 1), normalization order 1, raw column (-1, -2) -> the
+   constraint returns (0, 0); input (1, 2), no bias: output 0, not in [1, 2] *)
+Theorem C20_projected_weighted_average_zero_refuted :
+  exists rt c n w r x lo hi,
+    lin_valid c n /\ length w = n /\ lc_norm c = 1%nat /\ all_increasing c n /\
+    lin_project_col rt c w = Some r /\ length x = n /\
+    (forall v, In v (clipped (layer_bounds c n) x) -> lo <= v /\ v <= hi) /\
+    ~ (lo <= lin_unit r 0 (layer_bounds c n) x).
+Proof. exact weighted_average_zero_refuted. Qed.
+Print Assumptions C20_projected_weighted_average_zero_refuted.
+
+(* (5) Linear.call with its two branches (units == 1: one row, tf.matmul;
+   units > 1: one row per unit, reduce_sum(inputs * transpose(kernel))) and the
+   optional bias (None = use_bias off): whenever defined, entry u is the clipped
+   affine function of kernel column u.  bias_of None u = 0; row_of (In1 x) u = x,
+   row_of (InN xs) u = nth u xs []. *)
+Theorem C20_call_formula : forall units K bias bs inp out, linear_call units K bias bs inp = Some out ->
+  length out = units /\
+  forall u, (u < units)%nat -> nth u out 0 == lin_unit (column u K) (bias_of bias u) bs (row_of inp u).
+Proof. exact linear_call_spec. Qed.
+Print Assumptions C20_call_formula.
+
+(* use_bias off = a bias of zeros *)
+Theorem C20_no_bias : forall units K bs inp zs, (forall u, nth u zs 0 == 0) ->
+  oqeq (linear_call units K None bs inp) (linear_call units K (Some zs) bs inp).
+Proof. exact linear_call_no_bias. Qed.
+Print Assumptions C20_no_bias.
+
+(* unit u of a units > 1 layer = the units == 1 layer with kernel column u and
+   bias_u on unit u's row: both input forms compute the same per-unit function *)
+Theorem C20_unit_forms : forall units K bias bs xs out u, (u < units)%nat ->
+  linear_call units K bias bs (InN xs) = Some out ->
+  exists v, linear_call 1 (col_matrix (column u K)) (option_map (fun b => [nth u b 0]) bias) bs (In1 (nth u xs [])) = Some [v] /\
+            nth u out 0 == v.
+Proof. exact linear_call_unit_forms. Qed.
+Print Assumptions C20_unit_forms.
+
+(* the whole layer after its constraint (linear_constrained = project the
+   (n, units) kernel, then call): unit u is the clipped affine function of the
+   PROJECTED column u, so every C20_projected_* theorem applies to every unit *)
+Theorem C20_projected_layer : forall rt c units W bias inp out u,
+  lin_valid c (length W) -> linear_constrained rt c units W bias inp = Some out -> (u < units)%nat ->
+  exists r, lin_project_col rt c (column u W) = Some r /\
+    nth u out 0 == lin_unit r (bias_of bias u) (layer_bounds c (length W)) (row_of inp u).
+Proof. exact projected_layer. Qed.
+Print Assumptions C20_projected_layer.
+
+Theorem C20_projected_layer_defined : forall rt c units W bias inp, lin_valid c (length W) ->
+  (match inp with In1 _ => units = 1%nat | InN _ => units <> 1%nat end) ->
+  exists out, linear_constrained rt c units W bias inp = Some out.
+Proof. exact projected_layer_defined. Qed.
+Print Assumptions C20_projected_layer_defined.
+
+(* end to end for one unit of the constrained layer *)
+Theorem C20_projected_layer_monotone : forall rt c units W bias inp inp' out out' u,
+  lin_valid c (length W) -> (u < units)%nat ->
+  linear_constrained rt c units W bias inp = Some out -> linear_constrained rt c units W bias inp' = Some out' ->
+  length (row_of inp u) = length W -> length (row_of inp' u) = length W -> dir_le c (row_of inp u) (row_of inp' u) ->
+  nth u out 0 <= nth u out' 0.
+Proof. exact projected_layer_monotone. Qed.
+Print Assumptions C20_projected_layer_monotone.
